@@ -31,6 +31,8 @@ def wire_cases(ctx, classes, n_schema, gen, per_class, p_send, p_unknown):
             # deterministic coverage of the tagged section: every tagged field absent (defaults),
             # every default sent explicitly, every tagged field present with a non-default value
             plan = plan + [(True, 0.0, p_unknown), (True, 1.0 if p_send > 0 else 0.0, 0.0), (False, 0.0, 0.0)]
+            if p_unknown:
+                plan = plan + [(False, 0.0, "zero-last")]
         for k_plan, (want_default, ps, pu) in enumerate(plan):
             first_of_class = k_plan == 0
             val = gen.entity(cls, want_default=want_default)
